@@ -55,6 +55,22 @@ def insert_stubs(u, no_ctor_key=()):
         text += '  LASTT%d = self; return LAST%d = &n->f_data;\n}\n\n' % (k, k)
         skipped.append(fn)
         info.append(dict(k=k, fn=fn, table=f['qualified'], cmp=byname[cmp_[0]]['qualified'], elem=elem_t))
+    # container<T>::find, where the (changed) code under contract looks a table up without inserting: same single-witness model --
+    # an element of this table that compares equal to the key under the comparator passed, or null
+    for f in u.json['functions']:
+        if not re.search(r'rb_tree::container<.*>::find$', f['qualified']):
+            continue
+        m = re.match(r'(.+?) \* (\w+)\((.+?) \*self, (.+?) \*v_key, (.+?) v_comp\)$', f['sig'])
+        if not m or m.group(1) not in etypes:
+            continue
+        elem_t, fn, self_t, key_t, comp_t = m.groups()
+        cmp_ = [c for c in calls.get(fn, []) if c in byname and 'operator()' in byname[c]['qualified']]
+        if len(cmp_) != 1:
+            continue
+        ek = etypes[elem_t]
+        text += '/* contract of %s, comparator as resolved by clang: %s */\n' % (f['qualified'], byname[cmp_[0]]['qualified'])
+        text += '%s* %s(%s* self, %s* key, %s comp)\n{\n  if (WE%d != 0 && WTAB%d == (void*)self && %s(&comp, WE%d, key) == 0) return WE%d;\n  return 0;\n}\n\n' % (elem_t, fn, self_t, key_t, comp_t, ek, ek, cmp_[0], ek, ek)
+        skipped.append(fn)
     text += 'static void order_check_all(void) { ' + ' '.join('order_check%d();' % x['k'] for x in info) + ' }\n'
     return text, skipped, info
 
